@@ -94,8 +94,24 @@ class World:
         return o
 
     def junk(self):
+        import argparse
+        import tarfile
+        import types
+        import zipfile
+        zp, tp = os.path.join(self.dir, 'junk.zip'), os.path.join(self.dir, 'junk.tar')
+        if not os.path.exists(zp):
+            with zipfile.ZipFile(zp, 'w') as z:
+                z.writestr('a.txt', 'x')
+            with tarfile.open(tp, 'w'):
+                pass
+        z, t = zipfile.ZipFile(zp, 'r'), tarfile.open(tp, 'r')
+        self.opened += [z, t]
+        # things that are NOT streams although they carry stream-like attributes (`mode`, `name`, `read`, `closed`)
         return [('None', None), ('int', 3), ('float', 2.5), ('bytes-path', self.plain.encode()), ('pathlib.Path', pathlib.Path(self.plain)),
-                ('list', [self.plain]), ('object', object()), ('dict', {'file': self.plain})]
+                ('list', [self.plain]), ('object', object()), ('dict', {'file': self.plain}),
+                ('ZipFile', z), ('TarFile', t), ('Namespace(mode=r)', argparse.Namespace(mode='r', name=self.plain)),
+                ('SimpleNamespace(mode=rb, closed)', types.SimpleNamespace(mode='rb', closed=False, name=self.plain)),
+                ('bool', True), ('tuple', (self.plain,)), ('bytearray', bytearray(self.plain.encode()))]
 
     def close(self):
         for o in self.opened:
@@ -196,6 +212,15 @@ def readers():
     }
 
 
+def big_csv_text():
+    """more than 2 MiB in which multi-byte characters sit at EVERY offset class (a reader that decodes block by block meets one at a block end)"""
+    head = csv_text('big \u00e9', 2)
+    rows = []
+    for i in range(48000):
+        rows.append(f'HP:{i:07d}{"é" * (i % 7)}\u8868{"😀" * (i % 3)},ZZ:{"ü" * (i % 5)}\u75c5{i:07d},{(i % 97) + 0.5}\r\n')
+    return head + ''.join(rows)
+
+
 def contents():
     """the last content of each kind starts with a byte-order mark: whatever a reader makes of it (a result or an error), it must make
     the same of it for every source kind"""
@@ -208,7 +233,7 @@ def contents():
                  ('bom', '\ufeff' + hpoa_text('BOM é', 4)),
                  ('odd-separators', hpoa_text('A\u2028B\x85C\x0cD\x1cE\x0bF\u2029G', 4)),
                  ('crlf', hpoa_text('CRLF é', 4).replace('\n', '\r\n')), ('lone-cr', hpoa_text('LONE CR', 4).replace('\n', '\r'))],
-        'csv': [('a', csv_text('first', 4)), ('b', csv_text('second é', 6)), ('c', csv_text('third', 2)), ('bom', '\ufeff' + csv_text('bom', 3)),
+        'csv': [('big-non-ascii', big_csv_text()), ('a', csv_text('first', 4)), ('b', csv_text('second é', 6)), ('c', csv_text('third', 2)), ('bom', '\ufeff' + csv_text('bom', 3)),
                 ('odd-separators', csv_text('m\u2028n\x85o\x0cp\x1cq\x0br\u2029s', 3)),
                 ('crlf', csv_text('crlf é', 3).replace('\r\n', '\n').replace('\n', '\r\n')),
                 # a bare carriage return / a line break followed by `#` INSIDE a quoted term id, a record that begins with `#`, and a file
@@ -430,7 +455,7 @@ def reader_product(ctx, w):
                     if ref[0] == 'raises' and tag != 'bom':
                         ctx.violation(f'{fname}:reference-raises', {'case': {'kind': 'reader', 'function': fname, 'content': tag}, 'impl': ref[1]})
                         break
-                if layout == 'single' and ctype == 'csv':
+                if layout == 'single' and ctype == 'csv' and len(text) < 100000:
                     model_reads_csv(ctx, text, tag, ref)
                 for kind in (KINDS if layout == 'single' else GZ_KINDS):
                     ctx.case(['read', fname, kind, tag, layout], True, 'readers x kinds x contents x gz layouts',
@@ -444,7 +469,7 @@ def reader_product(ctx, w):
                                        'theorem': 'Hpv.Props.C16.same_result'})
             # the same content through sources that are NOT a regular file read from its start: a stream the caller has already read a
             # prefix of (what is left IS the content), a path to a FIFO (size 0, not seekable), an unseekable binary stream
-            if ref is not None and ref[0] == 'ok' and tag in ('ascii', 'non-ascii', 'a', 'b'):
+            if ref is not None and ref[0] == 'ok' and tag in ('ascii', 'non-ascii', 'a', 'b', 'big-non-ascii'):
                 w.put(text, '.' + ctype, 'single')
                 for vname, make in variant_sources(w, text, ctype):
                     ctx.case(['read', fname, vname, tag], True, 'readers x positioned / unseekable / FIFO sources',
